@@ -28,7 +28,7 @@ ASSUMPTIONS = ["generator preconditions from the statement: pin cites followed b
                "expected court id = first exact-normalised citation_string in courts-db, else last prefix match"]
 FLOORS = {"quick": {"extractors_total": 6000, "minimal_forms_checked": 5500, "literal_forms_checked": 6000, "examples_checked": 700,
                     "form:full": 1200, "form:full_parallel": 300, "form:short": 500, "form:supra": 500,
-                    "form:id": 500, "form:journal": 500, "form:law": 400, "form:antecedent_full": 500, "courts_checked": 300,
+                    "form:id": 500, "form:journal": 500, "form:law": 400, "form:antecedent_full": 500, "courts_checked": 300, "courts_exhaustive": 1800,
                     "pin_cites_checked": 1000},
           "thorough": {"minimal_forms_checked": 45000, "form:full": 80000, "form:full_parallel": 20000,
                        "form:short": 30000, "form:supra": 30000, "form:id": 30000, "form:journal": 30000,
@@ -448,6 +448,33 @@ def check_antecedent_full(rng, rec):
         return fail(rec, "antefull_full_span", case, observed=fs, expected=(len(lead), ce))
 
 
+def run_courts(spec, rec, rng):
+    """EXHAUSTIVE over the parenthetical-safe court strings of courts-db."""
+    from eyecite.models import FullCaseCitation, ReferenceCitation
+    for n, court in enumerate(gen.DB.courts):
+        if n % spec["nshards"] != spec["i"]:
+            continue
+        P, D = gen.word(rng), gen.word(rng)
+        year = rng.randint(1800, gen.YEARNOW)
+        s = f"{P} v. {D}, {rng.randint(1, 999)} {rng.choice(['F.2d', 'A.2d', 'N.E.2d', 'P.3d', 'So. 2d'])} {rng.randint(1, 999)} ({court} {year})."
+        case = dict(text=s, form="court", court=court)
+        cs = extract(s, rec, case)
+        if cs is None:
+            continue
+        rec.ev()
+        rec.nontrivial(s)
+        cs = [c for c in cs if not isinstance(c, ReferenceCitation)]
+        if len(cs) != 1 or type(cs[0]) is not FullCaseCitation:
+            fail(rec, "court_form_count", case, observed=[(M.kind(c), c.span()) for c in cs], expected=1)
+            continue
+        rec.count("courts_exhaustive")
+        exp = exp_court(court)
+        if cs[0].metadata.court != exp:
+            fail(rec, "full_court", case, observed=cs[0].metadata.court, expected=exp)
+        if cs[0].metadata.year != str(year):
+            fail(rec, "full_year", case, observed=cs[0].metadata.year, expected=year)
+
+
 def one(s, cls, rec, case):
     from eyecite.models import ReferenceCitation
     cs = extract(s, rec, case)
@@ -704,6 +731,8 @@ def run_shard(spec, rec):
     run_minimal(spec, rec, rng)
     run_literals(spec, rec, rng)
     run_examples(spec, rec, rng)
+    rec.c01_tag = None
+    run_courts(spec, rec, rng)
     for k in range(spec["n"]):
         forms = ["check_full"] + (["check_short", "check_supra", "check_id", "check_journal", "check_law",
                                    "check_antecedent_full"] if k % 2 == 0 else [])
